@@ -29,6 +29,11 @@ func init() {
 		ruleF1(c, "C03.T11")
 		ruleT12(c, "C03.T12")
 		ruleT13(c, "C03.T13")
+		// what a retry finds after its relock is checked again, whatever the cached objects look like
+		ruleG4(c, "C03.T14")
+		// the simple server serialises the requests on one file by one lock
+		ruleS17_1(c, "C03.T15")
+		ruleObjGranularity(c, "C03.T16")
 	}
 }
 
@@ -1336,4 +1341,82 @@ func ruleT13(c *Ctx, id string) {
 			}
 		}
 	}
+}
+
+// ruleObjGranularity: a transaction writes only what it holds the lock of.
+// Inodes are 128-byte journal objects, 32 to a block, each under its own lock;
+// the journal merges concurrent transactions object by object.  A whole-block
+// access (ReadBuf/OverWrite of NBITBLOCK bits, alloctxn.ReadBlock, ZeroBlock,
+// Block2addr) is for blocks that belong to one inode - data and index blocks,
+// whose numbers come from the block map or the allocator.  A block number
+// taken from an object's address (Inum2Addr(...).Blkno) or from the layout
+// (InodeStart, the bitmap starts) names a block shared by objects under other
+// locks: logging it whole writes the neighbours' old contents back over what
+// their transactions committed meanwhile (the inode cache hides it until a
+// restart) - acknowledged and even COMMITted data of another file is gone.
+func ruleObjGranularity(c *Ctx, id string) {
+	V, P, R := c.V, c.P, c.R
+	R.Rule(id, "journal objects are written at the granularity of their lock: the block number of every whole-block access in the server packages (ReadBuf/OverWrite of NBITBLOCK bits, ReadBlock, ZeroBlock, Block2addr) does not derive from an object address's Blkno nor from the layout getters of the shared regions", 5)
+	nbit := constOfPkg(P, jrnlPath+"/common", "NBITBLOCK")
+	b2a := P.Func("super.(*FsSuper).Block2addr")
+	shared := map[string]bool{"Inum2Addr": true, "InodeStart": true, "BitmapBlockStart": true, "BitmapInodeStart": true}
+	n := 0
+	per := map[string]int{}
+	for _, fn := range P.RepoFuncs("inode", "alloctxn", "dir", "fstxn", "nfs", "shrinker") {
+		if fn.Blocks == nil {
+			continue
+		}
+		for _, b := range fn.Blocks {
+			for _, in := range b.Instrs {
+				cl, ok := in.(*ssa.Call)
+				if !ok {
+					continue
+				}
+				cal := staticCallee(cl)
+				if cal == nil {
+					continue
+				}
+				var subj ssa.Value
+				as := nonRecvArgs(cl)
+				switch {
+				case (cal == V.ReadBuf || cal == V.OverWrite) && len(as) >= 2:
+					if k, isk := constInt(stripConv(as[1])); isk && k == nbit {
+						subj = as[0]
+					}
+				case (cal == V.ReadBlock || cal == V.ZeroBlock || (b2a != nil && cal == b2a)) && len(as) >= 1:
+					subj = as[len(as)-1]
+				}
+				if subj == nil {
+					continue
+				}
+				n++
+				R.Analysed[FuncName(fn)] = true
+				bad := ""
+				for v := range bwdAll(subj) {
+					switch x := v.(type) {
+					case *ssa.FieldAddr:
+						if fieldNameAt(x) == "Blkno" {
+							bad = "the Blkno of an object address"
+						}
+					case *ssa.Field:
+						if st, isS := x.X.Type().Underlying().(*types.Struct); isS && x.Field < st.NumFields() && st.Field(x.Field).Name() == "Blkno" {
+							bad = "the Blkno of an object address"
+						}
+					case *ssa.Call:
+						if g := staticCallee(x); g != nil && shared[g.Name()] && funcPkg(g) != nil && strings.HasSuffix(funcPkg(g).Path(), "/super") {
+							bad = "the layout function " + g.Name()
+						}
+					}
+				}
+				base := FuncName(ownerOf(fn)) + "|whole-block access through " + cal.Name()
+				per[base]++
+				key := base
+				if per[base] > 1 {
+					key = fmt.Sprintf("%s#%d", base, per[base])
+				}
+				R.Check(bad == "", id, key, P.Pos(cl.Pos()), "the block accessed as a whole is a block of the inode at hand (its number comes from the block map, the allocator or a pointer slot)", "not a block of a shared region", "the block number derives from "+bad+": a block that holds objects under other locks is read and logged as a whole - the other objects' committed updates are overwritten with what this transaction read earlier")
+			}
+		}
+	}
+	R.Check(n >= 5, id, "inventory|whole-block accesses", "?", "the whole-block accesses of the server packages are found", fmt.Sprintf("%d sites", n), fmt.Sprintf("only %d whole-block accesses found", n))
 }
